@@ -88,6 +88,11 @@ class AccessToken(access_token.AccessToken):
             except KeyError:
                 raise ValueError("Invalid nonce value")
 
+            # The map is shared with other identifiers (sub, sid), so also compare with the
+            # nonce that was sent in the request this response belongs to
+            if _cstate.get_set(key, claim=["nonce"]).get("nonce") != _idt["nonce"]:
+                raise ParameterError('Someone has messed with "nonce"')
+
             _cstate.bind_key(_idt["sub"], key)
 
         if "expires_in" in resp:
